@@ -119,19 +119,6 @@ impl ArrDesc {
         }
     }
 
-    /// Does the description (transitively) contain an `ArrivalCurvePrefix`?
-    pub fn contains_prefix(&self) -> bool {
-        match self {
-            ArrDesc::Prefix(..) => true,
-            ArrDesc::Jittered(a, _) | ArrDesc::Propagated(a, _) | ArrDesc::Rc(a) => {
-                a.contains_prefix()
-            }
-            ArrDesc::Vec(v) | ArrDesc::Slice(v) => v.iter().any(|a| a.contains_prefix()),
-            ArrDesc::SumOf(a, b) => a.contains_prefix() || b.contains_prefix(),
-            _ => false,
-        }
-    }
-
     pub fn kind_name(&self) -> &'static str {
         match self {
             ArrDesc::Periodic(_) => "Periodic",
@@ -198,14 +185,6 @@ impl CostDesc {
         }
     }
 
-    /// Largest cost of a single job.
-    pub fn max_single(&self) -> u64 {
-        match self {
-            CostDesc::Scalar(w) => *w,
-            CostDesc::Multiframe(v) => v.iter().copied().max().unwrap_or(0),
-            CostDesc::Curve(v) | CostDesc::Extrap(v) => v.first().copied().unwrap_or(0),
-        }
-    }
 }
 
 impl fmt::Display for CostDesc {
@@ -502,10 +481,4 @@ pub fn parse_supply(text: &str) -> PResult<SupDesc> {
         return Err(format!("trailing input in supply description '{}'", text));
     }
     Ok(a)
-}
-
-pub fn parse_u64_list(text: &str) -> PResult<Vec<u64>> {
-    text.split_whitespace()
-        .map(|t| t.parse::<u64>().map_err(|e| format!("{}: '{}'", e, t)))
-        .collect()
 }
